@@ -1,4 +1,4 @@
--- GENERATED from src/spox/_public.py by translator/inline_facts.py on every run; do not edit.
+-- GENERATED from src/spox/_public.py, src/spox/_adapt.py by translator/inline_facts.py on every run; do not edit.
 
 import SpoxModel.Model.Inline
 
@@ -10,5 +10,9 @@ def stmts : List Stmt := [.other, .read, .read, .read, .other, .other, .copy, .r
 
 /-- `_copy_model` returns a fresh `ModelProto` filled by `CopyFrom` (or a deepcopy) -/
 def copyFresh : Bool := true
+
+/-- statements of `spox._adapt.adapt_inline` after the no-conversion early returns, as far as
+    `node.model` is concerned -/
+def swapIR : List SStmt := [.other, .other, .other, .other, .other, .saveBase, .tryFinally [.setTarget, .emit] [.restoreBase], .other, .other]
 
 end Generated.InlineFacts
